@@ -26,8 +26,8 @@ pub fn requirements(tier: Tier) -> Vec<(&'static str, u64)> {
         ("histories", if q { 20_000 } else { 1_000_000 }),
         ("instances", if q { 100_000 } else { 5_000_000 }),
         ("sets-with>=4-entries", 2_000),
-        ("percent:sets-with>=4-entries-and>=2-hash-orders/sets-with>=4-entries", 90),
-        ("max:distinct-hash-orders-for-one-set", 4),
+        // (how many distinct hash iteration orders were seen is reported, not required: an
+        // implementation that keeps the entries in an ordered map satisfies the property too)
         ("permutation-groups-complete", 1_000),
         ("replaced-through-other-case", 1_000),
         ("removed", 1_000),
